@@ -4,9 +4,11 @@
    Part 3  Oettli-Prager: the berr formula is an attained and, without guards, minimal perturbation size
    Part 4  forward error: |x - x*| <= |inv(op A)| W for the weights built by the code; the dlacon_ value is a lower
            bound of the exact norm (so "FERR x slack dominates" is an oracle matter: ferr_estimator_partial)   *)
-Require Import ZArith List Bool Lia.
-From SLU Require Import Consts LaconModel RefineModel.
+Require Import ZArith List Bool Lia QArith Qabs Lqa Qreduction.
+From SLU Require Import Consts LaconModel LaconProofs RefineModel.
 Import ListNotations.
+
+(* ================================================================== Part 1 *)
 Local Open Scope Z_scope.
 
 Section RefineLoop.
@@ -64,3 +66,695 @@ Proof.
     rewrite Hbe, Hw. reflexivity.
 Qed.
 End RefineLoop.
+Local Close Scope Z_scope.
+Local Open Scope Q_scope.
+
+(* ================================================================== Part 2 (R2.v) *)
+
+(* ---------------------------------------------------------------- specification side: rows of op(A) as lists of (a_ij, x_j) *)
+Notation colsQ := (list (list (nat * Q))).
+
+Fixpoint sum_prod (l : list (Q * Q)) : Q := match l with [] => 0 | (v, y) :: r => v * y + sum_prod r end.
+Fixpoint sum_absprod (l : list (Q * Q)) : Q := match l with [] => 0 | (v, y) :: r => Qabs v * Qabs y + sum_absprod r end.
+
+(* entries of row i of A paired with the x they multiply, column by column (no transpose) *)
+Fixpoint col_pick (i : nat) (xk : Q) (col : list (nat * Q)) : list (Q * Q) :=
+  match col with [] => [] | e :: r => if Nat.eqb (fst e) i then (snd e, xk) :: col_pick i xk r else col_pick i xk r end.
+Fixpoint row_terms (i : nat) (xc : list (Q * list (nat * Q))) : list (Q * Q) :=
+  match xc with [] => [] | (xk, col) :: r => col_pick i xk col ++ row_terms i r end.
+(* entries of row k of A' = column k of A paired with x at their row index *)
+Definition col_terms (d : Q) (x : list Q) (col : list (nat * Q)) : list (Q * Q) :=
+  map (fun e => (snd e, nth (fst e) x d)) col.
+
+Definition op_terms (notran : bool) (cols : colsQ) (x : list Q) (i : nat) : list (Q * Q) :=
+  if notran then row_terms i (combine x cols) else col_terms 0 x (nth i cols []).
+
+Lemma sum_prod_app a b : sum_prod (a ++ b) == sum_prod a + sum_prod b.
+Proof. induction a as [|[v y] r IH]; cbn; [lra|]. rewrite IH. lra. Qed.
+Lemma sum_absprod_app a b : sum_absprod (a ++ b) == sum_absprod a + sum_absprod b.
+Proof. induction a as [|[v y] r IH]; cbn; [lra|]. rewrite IH. lra. Qed.
+Lemma sum_absprod_nonneg l : 0 <= sum_absprod l.
+Proof. induction l as [|[v y] r IH]; cbn; [lra|]. pose proof (Qabs_nonneg v). pose proof (Qabs_nonneg y). nra. Qed.
+
+Section RefineQ.
+Variable A : Arith Q.
+Hypothesis ok : ArithQ_ok A.
+Local Notation z0 := (a0 A).
+
+(* generic scatter  rw[fst e] += g (snd e)  over one column *)
+Fixpoint gsum (g : Q -> Q) (i : nat) (col : list (nat * Q)) : Q :=
+  match col with [] => 0 | e :: r => (if Nat.eqb (fst e) i then g (snd e) else 0) + gsum g i r end.
+
+Lemma scatter_gen (g : Q -> Q) n col : forall rw, length rw = n ->
+  let rw' := fold_left (fun rw (e : nat * Q) => upd rw (fst e) (aadd A (nth (fst e) rw z0) (g (snd e)))) col rw in
+  length rw' = n /\ forall i, (i < n)%nat -> nth i rw' z0 == nth i rw z0 + gsum g i col.
+Proof.
+  induction col as [|e r IH]; intros rw Hl; cbn.
+  - split; [assumption|]. intros. lra.
+  - destruct (IH (upd rw (fst e) (aadd A (nth (fst e) rw z0) (g (snd e))))) as [Hl' Hv].
+    { rewrite upd_length. assumption. }
+    split; [assumption|]. intros i Hi. rewrite (Hv i Hi). rewrite nth_upd.
+    destruct (Nat.eqb i (fst e)) eqn:E.
+    + apply Nat.eqb_eq in E. subst i. rewrite Nat.eqb_refl.
+      replace (fst e <? length rw)%nat with true by (symmetry; apply Nat.ltb_lt; lia). cbn [andb].
+      rewrite (ok_add A ok). lra.
+    + cbn [andb]. rewrite Nat.eqb_sym, E. lra.
+Qed.
+
+Lemma gsum_scale c i col : gsum (fun v => c * v) i col == c * gsum (fun v => v) i col.
+Proof. induction col as [|e r IH]; cbn; [lra|]. rewrite IH. destruct (Nat.eqb (fst e) i); lra. Qed.
+Lemma gsum_pick i xk col : xk * gsum (fun v => v) i col == sum_prod (col_pick i xk col).
+Proof. induction col as [|e r IH]; cbn; [lra|]. destruct (Nat.eqb (fst e) i); cbn; rewrite <- IH; lra. Qed.
+Lemma gsum_pick_abs i xk col : Qabs xk * gsum Qabs i col == sum_absprod (col_pick i xk col).
+Proof. induction col as [|e r IH]; cbn; [lra|]. destruct (Nat.eqb (fst e) i); cbn; rewrite <- IH; lra. Qed.
+Lemma gsum_ext g h i col : (forall v, g v == h v) -> gsum g i col == gsum h i col.
+Proof. intros H. induction col as [|e r IH]; cbn; [lra|]. rewrite IH. destruct (Nat.eqb (fst e) i); [rewrite H|]; lra. Qed.
+
+(* ---- no transpose: y := alpha*A*x + y *)
+Lemma gemvN_spec alpha n : forall xc y, length y = n ->
+  let y' := fold_left (fun y (p : Q * list (nat * Q)) =>
+               let (xj, col) := p in
+               if aeqb A xj z0 then y
+               else let temp := amul A alpha xj in
+                    fold_left (fun y e => upd y (fst e) (aadd A (nth (fst e) y z0) (amul A temp (snd e)))) col y) xc y in
+  length y' = n /\ forall i, (i < n)%nat -> nth i y' z0 == nth i y z0 + alpha * sum_prod (row_terms i xc).
+Proof.
+  induction xc as [|[xj col] r IH]; intros y Hl; cbn [fold_left row_terms].
+  - split; [assumption|]. intros. cbn. lra.
+  - destruct (aeqb A xj z0) eqn:E.
+    + apply (ok_eqb A ok) in E. rewrite (ok0 A ok) in E.
+      destruct (IH y Hl) as [Hl' Hv]. split; [assumption|]. intros i Hi. rewrite (Hv i Hi), sum_prod_app.
+      rewrite <- gsum_pick, E. ring.
+    + destruct (scatter_gen (fun v => amul A (amul A alpha xj) v) n col y Hl) as [Hl1 Hv1].
+      destruct (IH _ Hl1) as [Hl' Hv]. split; [assumption|]. intros i Hi.
+      rewrite (Hv i Hi), (Hv1 i Hi), sum_prod_app, <- gsum_pick.
+      rewrite (gsum_ext _ (fun v => (alpha * xj) * v)).
+      2:{ intros v. rewrite !(ok_mul A ok). reflexivity. }
+      rewrite gsum_scale. ring.
+Qed.
+
+Lemma map_nth_in {X Y} (f : X -> Y) l k dx dy : (k < length l)%nat -> nth k (map f l) dy = f (nth k l dx).
+Proof. intros H. rewrite (nth_indep _ dy (f dx)) by (rewrite map_length; assumption). apply map_nth. Qed.
+
+Lemma col_terms_cons d x e r : col_terms d x (e :: r) = (snd e, nth (fst e) x d) :: col_terms d x r.
+Proof. reflexivity. Qed.
+
+Lemma fold_sum_prod (col : list (nat * Q)) x : forall acc q, acc == q ->
+  fold_left (fun t (e : nat * Q) => aadd A t (amul A (snd e) (nth (fst e) x z0))) col acc == q + sum_prod (col_terms z0 x col).
+Proof.
+  induction col as [|e r IH]; intros acc q H; [cbn; rewrite H; lra|].
+  rewrite col_terms_cons. cbn [fold_left sum_prod].
+  rewrite (IH _ (q + snd e * nth (fst e) x z0)); [lra|]. rewrite (ok_add A ok), (ok_mul A ok), H. reflexivity.
+Qed.
+
+Lemma col_terms_default d1 d2 x col : d1 == d2 -> sum_prod (col_terms d1 x col) == sum_prod (col_terms d2 x col)
+                                                  /\ sum_absprod (col_terms d1 x col) == sum_absprod (col_terms d2 x col).
+Proof.
+  intros H. induction col as [|e r [IH1 IH2]]; [cbn; split; reflexivity|]. rewrite !col_terms_cons. cbn [sum_prod sum_absprod].
+  assert (E : nth (fst e) x d1 == nth (fst e) x d2).
+  { destruct (Nat.lt_ge_cases (fst e) (length x)) as [Hl|Hl].
+    - rewrite (nth_indep x d1 d2 Hl). reflexivity.
+    - rewrite !nth_overflow by assumption. exact H. }
+  split; [rewrite IH1, E; reflexivity|rewrite IH2, E; reflexivity].
+Qed.
+
+(* ---- the residual  work = b - op(A) x *)
+Theorem residual_spec notran (cols : colsQ) x b n : length b = n -> length cols = n -> length x = n ->
+  length (residual A notran cols x b) = n /\
+  forall i, (i < n)%nat ->
+    nth i (residual A notran cols x b) z0 == nth i b z0 - sum_prod (op_terms notran cols x i).
+Proof.
+  intros Hb Hc Hx. unfold residual, sp_gemv.
+  assert (Hm1 : aopp A (a1 A) == -(1)) by (rewrite (ok_opp A ok), (ok1 A ok); reflexivity).
+  assert (E1 : aeqb A (aopp A (a1 A)) z0 = false).
+  { destruct (aeqb A (aopp A (a1 A)) z0) eqn:E; [|reflexivity]. apply (ok_eqb A ok) in E. rewrite Hm1, (ok0 A ok) in E. discriminate. }
+  assert (E2 : aeqb A (a1 A) (a1 A) = true) by (apply (ok_eqb A ok); reflexivity).
+  rewrite E1, E2. cbn [andb]. destruct notran.
+  - unfold gemvN. destruct (gemvN_spec (aopp A (a1 A)) n (combine x cols) b Hb) as [Hl Hv].
+    split; [assumption|]. intros i Hi. rewrite (Hv i Hi), Hm1. unfold op_terms. lra.
+  - unfold gemvT. split; [rewrite map_length, combine_length; lia|]. intros i Hi.
+    rewrite (map_nth_in _ _ _ (z0, [])) by (rewrite combine_length; lia).
+    rewrite combine_nth by lia.
+    rewrite (ok_add A ok), (ok_mul A ok), Hm1.
+    rewrite (fold_sum_prod (nth i cols []) x z0 0 (ok0 A ok)).
+    unfold op_terms. destruct (col_terms_default z0 0 x (nth i cols []) (ok0 A ok)) as [E _]. rewrite E. lra.
+Qed.
+
+(* ---- the denominators |op(A)||x| + |b| *)
+Lemma denomN_spec n : forall xc rw, length rw = n ->
+  let rw' := fold_left (fun rw (p : Q * list (nat * Q)) =>
+               let (xk0, col) := p in
+               let xk := afabs A xk0 in
+               fold_left (fun rw e => upd rw (fst e) (aadd A (nth (fst e) rw z0) (amul A (afabs A (snd e)) xk))) col rw) xc rw in
+  length rw' = n /\ forall i, (i < n)%nat -> nth i rw' z0 == nth i rw z0 + sum_absprod (row_terms i xc).
+Proof.
+  induction xc as [|[xk col] r IH]; intros rw Hl; cbn [fold_left row_terms].
+  - split; [assumption|]. intros. cbn. lra.
+  - destruct (scatter_gen (fun v => amul A (afabs A v) (afabs A xk)) n col rw Hl) as [Hl1 Hv1].
+    destruct (IH _ Hl1) as [Hl' Hv]. split; [assumption|]. intros i Hi.
+    rewrite (Hv i Hi), (Hv1 i Hi), sum_absprod_app, <- gsum_pick_abs.
+    rewrite (gsum_ext _ (fun v => Qabs xk * Qabs v)).
+    2:{ intros v. rewrite (ok_mul A ok), !(ok_abs A ok). lra. }
+    assert (G : forall c (h : Q -> Q) cl, gsum (fun v => c * h v) i cl == c * gsum h i cl).
+    { intros c h cl. induction cl as [|e rr IHc]; cbn; [lra|]. rewrite IHc. destruct (Nat.eqb (fst e) i); lra. }
+    rewrite G. ring.
+Qed.
+
+Lemma fold_sum_absprod (col : list (nat * Q)) x : forall acc q, acc == q ->
+  fold_left (fun s (e : nat * Q) => aadd A s (amul A (afabs A (snd e)) (afabs A (nth (fst e) x z0)))) col acc
+  == q + sum_absprod (col_terms z0 x col).
+Proof.
+  induction col as [|e r IH]; intros acc q H; [cbn; rewrite H; lra|].
+  rewrite col_terms_cons. cbn [fold_left sum_absprod].
+  rewrite (IH _ (q + Qabs (snd e) * Qabs (nth (fst e) x z0))); [lra|].
+  rewrite (ok_add A ok), (ok_mul A ok), !(ok_abs A ok), H. reflexivity.
+Qed.
+
+Theorem denom_spec notran (cols : colsQ) x b n : length b = n -> length cols = n -> length x = n ->
+  length (denom A notran cols x b) = n /\
+  forall i, (i < n)%nat ->
+    nth i (denom A notran cols x b) z0 == Qabs (nth i b z0) + sum_absprod (op_terms notran cols x i).
+Proof.
+  intros Hb Hc Hx. unfold denom. destruct notran.
+  - unfold denomN. destruct (denomN_spec n (combine x cols) (map (afabs A) b)) as [Hl Hv]; [rewrite map_length; assumption|].
+    split; [assumption|]. intros i Hi. rewrite (Hv i Hi).
+    rewrite (map_nth_in _ _ _ z0) by lia. rewrite (ok_abs A ok). unfold op_terms. reflexivity.
+  - unfold denomT. split; [rewrite map_length, combine_length; lia|]. intros i Hi.
+    rewrite (map_nth_in _ _ _ (z0, [])) by (rewrite combine_length; lia).
+    rewrite combine_nth by lia.
+    rewrite (ok_add A ok), (ok_abs A ok).
+    rewrite (fold_sum_absprod (nth i cols []) x z0 0 (ok0 A ok)).
+    unfold op_terms. destruct (col_terms_default z0 0 x (nth i cols []) (ok0 A ok)) as [_ E]. rewrite E. lra.
+Qed.
+End RefineQ.
+
+(* ================================================================== Part 3 (R3.v) *)
+
+(* ---------------------------------------------------------------- Oettli-Prager, one row *)
+(* a perturbation of one row: deltas for the matrix entries, one delta for the right-hand side *)
+Fixpoint perturb (ds : list Q) (row : list (Q * Q)) : list (Q * Q) :=
+  match ds, row with d :: ds', (v, y) :: r => (v + d, y) :: perturb ds' r | _, _ => [] end.
+Fixpoint bounded (w : Q) (ds : list Q) (row : list (Q * Q)) : Prop :=
+  match ds, row with
+  | d :: ds', (v, y) :: r => Qabs d <= w * Qabs v /\ bounded w ds' r
+  | [], [] => True
+  | _, _ => False
+  end.
+(* "row i of (A + dA) x = (b + db)_i with |dA| <= w |A|, |db| <= w |b|" *)
+Definition row_feasible (w : Q) (row : list (Q * Q)) (b : Q) : Prop :=
+  exists ds db, bounded w ds row /\ Qabs db <= w * Qabs b /\ sum_prod (perturb ds row) == b + db.
+
+Lemma Qabs_idem v : Qabs (Qabs v) == Qabs v.
+Proof. apply Qabs_pos, Qabs_nonneg. Qed.
+
+Definition sgnq (y : Q) : Q := if Qle_bool 0 y then 1 else -(1).
+Lemma sgnq_mul y : sgnq y * y == Qabs y.
+Proof.
+  unfold sgnq. destruct (Qle_bool 0 y) eqn:E.
+  - apply Qle_bool_iff in E. rewrite Qabs_pos by assumption. lra.
+  - assert (y < 0). { apply Qnot_le_lt. intros H. apply Qle_bool_iff in H. congruence. }
+    rewrite Qabs_neg by lra. lra.
+Qed.
+Lemma sgnq_abs y : Qabs (sgnq y) == 1.
+Proof. unfold sgnq. destruct (Qle_bool 0 y); reflexivity. Qed.
+
+Lemma perturb_sum t row :
+  sum_prod (perturb (map (fun vy => t * Qabs (fst vy) * sgnq (snd vy)) row) row) == sum_prod row + t * sum_absprod row.
+Proof.
+  induction row as [|[v y] r IH]; cbn [perturb map fst snd sum_prod sum_absprod]; [lra|]. rewrite IH.
+  setoid_replace ((v + t * Qabs v * sgnq y) * y) with (v * y + t * Qabs v * (sgnq y * y)) by ring.
+  rewrite sgnq_mul. ring.
+Qed.
+Lemma perturb_bounded t w row : Qabs t <= w ->
+  bounded w (map (fun vy => t * Qabs (fst vy) * sgnq (snd vy)) row) row.
+Proof.
+  intros Ht. induction row as [|[v y] r IH]; cbn [bounded map fst snd]; [exact I|]. split; [|assumption].
+  rewrite !Qabs_Qmult, sgnq_abs, Qabs_idem. pose proof (Qabs_nonneg v). nra.
+Qed.
+
+Theorem op_row_attained w row b : 0 <= w ->
+  Qabs (b - sum_prod row) <= w * (Qabs b + sum_absprod row) -> row_feasible w row b.
+Proof.
+  intros Hw H. set (r := b - sum_prod row) in *. set (d := Qabs b + sum_absprod row) in *.
+  pose proof (Qabs_nonneg b) as Hb. pose proof (sum_absprod_nonneg row) as Hs.
+  destruct (Qeq_dec d 0) as [Hd|Hd].
+  - (* zero denominator: the residual is zero, no perturbation needed *)
+    assert (Hr : r == 0). { rewrite Hd in H. apply Qabs_Qle_condition in H. lra. }
+    exists (map (fun _ => 0) row), 0. split; [|split].
+    + clear - Hw. induction row as [|[v y] rr IH]; cbn [bounded map]; [exact I|]. split; [|assumption].
+      change (Qabs 0) with 0. pose proof (Qabs_nonneg v). nra.
+    + change (Qabs 0) with 0. nra.
+    + assert (E : sum_prod (perturb (map (fun _ => 0) row) row) == sum_prod row).
+      { clear. induction row as [|[v y] rr IH]; cbn [perturb map sum_prod]; [lra|]. rewrite IH. ring. }
+      rewrite E. unfold r in Hr. lra.
+  - assert (Hdp : 0 < d) by (unfold d in *; lra).
+    set (t := r / d).
+    assert (Ht : Qabs t <= w).
+    { unfold t. unfold Qdiv. rewrite Qabs_Qmult. rewrite (Qabs_pos (/ d)) by (apply Qlt_le_weak, Qinv_lt_0_compat; assumption).
+      apply Qle_shift_div_r; [assumption|]. lra. }
+    assert (Htd : t * d == r) by (unfold t; field; lra).
+    exists (map (fun vy => t * Qabs (fst vy) * sgnq (snd vy)) row), (- (t * Qabs b)). split; [|split].
+    + apply perturb_bounded. assumption.
+    + rewrite Qabs_opp, Qabs_Qmult, Qabs_idem. nra.
+    + rewrite perturb_sum. unfold d in Htd. unfold r in Htd. 
+      setoid_replace (t * sum_absprod row) with (t * (Qabs b + sum_absprod row) - t * Qabs b) by ring.
+      rewrite Htd. ring.
+Qed.
+
+Lemma perturb_split ds : forall row w, bounded w ds row -> 0 <= w ->
+  exists e, sum_prod (perturb ds row) == sum_prod row + e /\ Qabs e <= w * sum_absprod row.
+Proof.
+  induction ds as [|d ds IH]; intros [|[v y] r] w Hb Hw; cbn in Hb; try contradiction.
+  - exists 0. cbn [perturb sum_prod sum_absprod]. split; [lra|]. change (Qabs 0) with 0. lra.
+  - destruct Hb as [Hd Hr]. destruct (IH r w Hr Hw) as (e & He & Hbe).
+    exists (d * y + e). cbn [perturb sum_prod sum_absprod]. split; [rewrite He; ring|].
+    eapply Qle_trans; [apply Qabs_triangle|]. rewrite Qabs_Qmult. pose proof (Qabs_nonneg y). nra.
+Qed.
+
+Theorem op_row_necessary w row b : 0 <= w -> row_feasible w row b ->
+  Qabs (b - sum_prod row) <= w * (Qabs b + sum_absprod row).
+Proof.
+  intros Hw (ds & db & Hb & Hdb & Heq).
+  destruct (perturb_split ds row w Hb Hw) as (e & He & Hbe).
+  rewrite He in Heq.
+  setoid_replace (b - sum_prod row) with (e - db) by lra.
+  eapply Qle_trans; [apply Qabs_triangle|]. rewrite Qabs_opp. nra.
+Qed.
+
+(* ---------------------------------------------------------------- the berr formula *)
+Lemma sum_prod_le_abs l : Qabs (sum_prod l) <= sum_absprod l.
+Proof.
+  induction l as [|[v y] r IH]; cbn [sum_prod sum_absprod]; [change (Qabs 0) with 0; lra|].
+  eapply Qle_trans; [apply Qabs_triangle|]. rewrite Qabs_Qmult. lra.
+Qed.
+
+Section BerrQ.
+Variable A : Arith Q.
+Hypothesis ok : ArithQ_ok A.
+Local Notation z0 := (a0 A).
+Variables safe1 safe2 : Q.
+Hypothesis Hs1 : 0 <= safe1.
+Hypothesis Hs2 : 0 <= safe2.
+
+(* the i-th candidate of the maximum, exactly as coded: safe1 is added when the denominator is <= safe2 *)
+Definition guard (d : Q) : Q := if Qle_bool d safe2 then safe1 else 0.
+Definition term_spec (w d : Q) : Q := (Qabs w + guard d) / d.
+
+Lemma guard_nonneg d : 0 <= guard d.
+Proof. unfold guard. destruct (Qle_bool d safe2); lra. Qed.
+
+Lemma berr_term_some w d : ~ d == 0 -> exists t, berr_term A safe1 safe2 w d = Some t /\ t == term_spec w d.
+Proof.
+  intros Hd. unfold berr_term, term_spec, guard. destruct (altb A safe2 d) eqn:E1.
+  - apply (ok_ltb A ok) in E1.
+    assert (H : Qle_bool d safe2 = false).
+    { destruct (Qle_bool d safe2) eqn:E; [|reflexivity]. apply Qle_bool_iff in E. lra. }
+    rewrite H. eexists. split; [reflexivity|]. rewrite (ok_div A ok), (ok_abs A ok). field. assumption.
+  - apply (ltb_false A ok) in E1.
+    assert (H : Qle_bool d safe2 = true) by (apply Qle_bool_iff; assumption).
+    rewrite H.
+    assert (E2 : aeqb A d z0 = false).
+    { destruct (aeqb A d z0) eqn:E; [|reflexivity]. apply (ok_eqb A ok) in E. rewrite (ok0 A ok) in E. contradiction. }
+    rewrite E2. cbn [negb]. eexists. split; [reflexivity|].
+    rewrite (ok_div A ok), (ok_add A ok), (ok_abs A ok). reflexivity.
+Qed.
+
+Lemma berr_term_none w d : berr_term A safe1 safe2 w d = None -> d == 0.
+Proof.
+  unfold berr_term. destruct (altb A safe2 d); [discriminate|].
+  destruct (aeqb A d z0) eqn:E; cbn [negb]; [|discriminate].
+  intros _. apply (ok_eqb A ok) in E. rewrite (ok0 A ok) in E. assumption.
+Qed.
+
+Definition bstep (s : Q) (p : Q * Q) : Q :=
+  match berr_term A safe1 safe2 (fst p) (snd p) with Some t => smax A s t | None => s end.
+
+Lemma bstep_spec acc p :
+  acc <= bstep acc p /\ (~ snd p == 0 -> term_spec (fst p) (snd p) <= bstep acc p) /\
+  (bstep acc p = acc \/ (~ snd p == 0 /\ bstep acc p == term_spec (fst p) (snd p))).
+Proof.
+  unfold bstep. destruct (berr_term A safe1 safe2 (fst p) (snd p)) as [t|] eqn:Et.
+  - assert (Hd : ~ snd p == 0).
+    { intros Hd. unfold berr_term in Et. destruct (altb A safe2 (snd p)) eqn:E1.
+      - apply (ok_ltb A ok) in E1. lra.
+      - destruct (aeqb A (snd p) z0) eqn:E2; cbn [negb] in Et; [discriminate|].
+        assert (aeqb A (snd p) z0 = true) by (apply (ok_eqb A ok); rewrite (ok0 A ok); assumption). congruence. }
+    destruct (berr_term_some (fst p) (snd p) Hd) as (t' & Et' & Ht'). rewrite Et in Et'. inversion Et'; subst t'.
+    destruct (smax_cases A ok acc t) as [[Hlt E]|[Hle E]]; rewrite E.
+    + split; [apply Qle_refl|]. split; [intros _; rewrite <- Ht'; lra|left; reflexivity].
+    + split; [assumption|]. split; [intros _; rewrite <- Ht'; apply Qle_refl|right; split; assumption].
+  - apply berr_term_none in Et. split; [apply Qle_refl|]. split; [intros H; contradiction|left; reflexivity].
+Qed.
+
+Lemma fold_berr l : forall acc,
+  let r := fold_left bstep l acc in
+  acc <= r /\ (forall p, In p l -> ~ snd p == 0 -> term_spec (fst p) (snd p) <= r) /\
+  (r = acc \/ exists p, In p l /\ ~ snd p == 0 /\ r == term_spec (fst p) (snd p)).
+Proof.
+  induction l as [|p l IH]; intros acc; cbn [fold_left].
+  - split; [apply Qle_refl|]. split; [intros p []|left; reflexivity].
+  - destruct (IH (bstep acc p)) as (H1 & H2 & H3). destruct (bstep_spec acc p) as (B1 & B2 & B3).
+    set (r := fold_left bstep l (bstep acc p)) in *.
+    split; [lra|]. split.
+    + intros q [<-|Hq] Hq0; [specialize (B2 Hq0); lra|apply H2; assumption].
+    + destruct H3 as [H3|(q & Hq & Hq0 & H3)].
+      * destruct B3 as [B3|[Bd B3]]; [left; rewrite H3; assumption|].
+        right. exists p. split; [left; reflexivity|]. split; [assumption|rewrite H3; assumption].
+      * right. exists q. split; [right; assumption|]. split; assumption.
+Qed.
+
+Lemma berr_of_spec work rw n : length work = n -> length rw = n ->
+  let s := berr_of A safe1 safe2 work rw in
+  0 <= s /\
+  (forall i, (i < n)%nat -> ~ nth i rw z0 == 0 -> term_spec (nth i work z0) (nth i rw z0) <= s) /\
+  (s == 0 \/ exists i, (i < n)%nat /\ ~ nth i rw z0 == 0 /\ s == term_spec (nth i work z0) (nth i rw z0)).
+Proof.
+  intros Hw Hr. unfold berr_of. fold bstep.
+  change (fold_left (fun (s : Q) (p : Q * Q) => match berr_term A safe1 safe2 (fst p) (snd p) with
+                                                | Some t => smax A s t | None => s end)) with (fold_left bstep).
+  destruct (fold_berr (combine work rw) z0) as (H1 & H2 & H3). set (s := fold_left bstep _ _) in *.
+  split; [rewrite <- (ok0 A ok); assumption|]. split.
+  - intros i Hi Hd. specialize (H2 (nth i work z0, nth i rw z0)). cbn [fst snd] in H2. apply H2; [|assumption].
+    rewrite <- combine_nth by lia. apply nth_In. rewrite combine_length. lia.
+  - destruct H3 as [H3|(p & Hp & Hd & H3)]; [left; rewrite H3; apply (ok0 A ok)|]. right.
+    apply In_nth with (d := (z0, z0)) in Hp. destruct Hp as (i & Hi & Hn).
+    rewrite combine_length in Hi. rewrite combine_nth in Hn by lia. subst p. cbn [fst snd] in *.
+    exists i. split; [lia|]. split; assumption.
+Qed.
+
+(* ---------------------------------------------------------------- the returned berr is an Oettli-Prager backward error *)
+Theorem berr_is_oettli_prager_thm notran (cols : colsQ) x b n :
+  length b = n -> length cols = n -> length x = n ->
+  let s := berr_of A safe1 safe2 (residual A notran cols x b) (denom A notran cols x b) in
+  0 <= s /\
+  (forall i, (i < n)%nat -> row_feasible s (op_terms notran cols x i) (nth i b z0)) /\
+  (forall w, 0 <= w ->
+     (forall i, (i < n)%nat -> row_feasible w (op_terms notran cols x i) (nth i b z0)) ->
+     (forall i, (i < n)%nat -> let d := Qabs (nth i b z0) + sum_absprod (op_terms notran cols x i) in ~ d == 0 -> safe2 < d) ->
+     s <= w).
+Proof.
+  intros Hb Hc Hx s.
+  destruct (residual_spec A ok notran cols x b n Hb Hc Hx) as [Hlr Hr].
+  destruct (denom_spec A ok notran cols x b n Hb Hc Hx) as [Hld Hd].
+  destruct (berr_of_spec _ _ n Hlr Hld) as (H0 & Hall & Hex). fold s in H0, Hall, Hex.
+  split; [assumption|]. split.
+  - intros i Hi. apply op_row_attained; [assumption|].
+    set (terms := op_terms notran cols x i) in *.
+    pose proof (Hr i Hi) as Er. pose proof (Hd i Hi) as Ed. fold terms in Er, Ed.
+    pose proof (sum_absprod_nonneg terms) as Hsa. pose proof (Qabs_nonneg (nth i b z0)) as Hba.
+    destruct (Qeq_dec (Qabs (nth i b z0) + sum_absprod terms) 0) as [Hz|Hnz].
+    + (* zero denominator: b_i = 0 and every product vanishes, so the residual is zero *)
+      pose proof (sum_prod_le_abs terms) as Hsp. apply Qabs_Qle_condition in Hsp.
+      assert (E0 : nth i b z0 == 0).
+      { destruct (Qabs_Qle_condition (nth i b z0) 0) as [Hq _]. specialize (Hq ltac:(lra)). lra. }
+      rewrite Hz. setoid_replace (nth i b z0 - sum_prod terms) with (- sum_prod terms) by lra.
+      rewrite Qabs_opp. apply Qabs_Qle_condition. lra.
+    + assert (Hdd : ~ nth i (denom A notran cols x b) z0 == 0) by (rewrite Ed; assumption).
+      specialize (Hall i Hi Hdd). unfold term_spec in Hall.
+      pose proof (guard_nonneg (nth i (denom A notran cols x b) z0)) as Hg.
+      assert (Hpos : 0 < nth i (denom A notran cols x b) z0) by (rewrite Ed; lra).
+      assert (Hq : Qabs (nth i (residual A notran cols x b) z0) / nth i (denom A notran cols x b) z0 <= s).
+      { eapply Qle_trans; [|exact Hall]. apply Qle_shift_div_l; [assumption|].
+        unfold Qdiv. rewrite <- Qmult_assoc, (Qmult_comm (/ _)), Qmult_inv_r by lra. lra. }
+      apply Qmult_le_compat_r with (z := nth i (denom A notran cols x b) z0) in Hq; [|lra].
+      unfold Qdiv in Hq. rewrite <- Qmult_assoc, (Qmult_comm (/ _)), Qmult_inv_r, Qmult_1_r in Hq by lra.
+      rewrite Er, Ed in Hq. exact Hq.
+  - intros w Hw Hfeas Hng. destruct Hex as [Hz|(i & Hi & Hdd & Hs)]; [lra|].
+    rewrite Hs. set (terms := op_terms notran cols x i) in *.
+    pose proof (Hr i Hi) as Er. pose proof (Hd i Hi) as Ed. fold terms in Er, Ed.
+    assert (Hnz : ~ Qabs (nth i b z0) + sum_absprod terms == 0) by (rewrite <- Ed; assumption).
+    pose proof (Hng i Hi Hnz) as Hbig. fold terms in Hbig. rewrite <- Ed in Hbig.
+    assert (Hguard : guard (nth i (denom A notran cols x b) z0) = 0).
+    { unfold guard. destruct (Qle_bool _ safe2) eqn:E; [|reflexivity]. apply Qle_bool_iff in E. lra. }
+    unfold term_spec. rewrite Hguard.
+    pose proof (op_row_necessary w terms (nth i b z0) Hw (Hfeas i Hi)) as Hn.
+    rewrite <- Er, <- Ed in Hn.
+    apply Qle_shift_div_r; [lra|]. lra.
+Qed.
+End BerrQ.
+
+(* ================================================================== Part 4 (R4.v) *)
+
+(* ---------------------------------------------------------------- forward error, exact arithmetic *)
+Definition vsub (u v : list Q) : list Q := map (fun p : Q * Q => fst p - snd p) (combine u v).
+Definition opv (notran : bool) (cols : colsQ) (n : nat) (v : list Q) : list Q :=
+  map (fun i => sum_prod (op_terms notran cols v i)) (seq O n).
+
+Lemma vsub_length u v : length u = length v -> length (vsub u v) = length u.
+Proof. intros H. unfold vsub. rewrite map_length, combine_length. lia. Qed.
+Lemma vsub_nth u v k : length u = length v -> nth k (vsub u v) 0 == nth k u 0 - nth k v 0.
+Proof.
+  intros H. destruct (Nat.lt_ge_cases k (length u)) as [Hk|Hk].
+  - unfold vsub. rewrite (map_nth_in _ _ _ (0, 0)) by (rewrite combine_length; lia).
+    rewrite combine_nth by assumption. cbn. reflexivity.
+  - rewrite !nth_overflow; try lia; [lra|rewrite vsub_length by assumption; lia].
+Qed.
+Lemma opv_nth notran cols n v i : (i < n)%nat -> nth i (opv notran cols n v) 0 = sum_prod (op_terms notran cols v i).
+Proof.
+  intros Hi. unfold opv. rewrite (map_nth_in _ _ _ O) by (rewrite seq_length; assumption).
+  rewrite seq_nth by assumption. reflexivity.
+Qed.
+
+(* linearity of both orientations *)
+Lemma col_pick_sub i a b col :
+  sum_prod (col_pick i (a - b) col) == sum_prod (col_pick i a col) - sum_prod (col_pick i b col).
+Proof. induction col as [|e r IH]; cbn [col_pick]; [cbn; lra|]. destruct (Nat.eqb (fst e) i); cbn [sum_prod]; rewrite ?IH; ring. Qed.
+
+Lemma row_terms_sub i : forall (cols : colsQ) u v, length u = length v ->
+  sum_prod (row_terms i (combine (vsub u v) cols)) ==
+  sum_prod (row_terms i (combine u cols)) - sum_prod (row_terms i (combine v cols)).
+Proof.
+  induction cols as [|col cs IH]; intros u v H.
+  - rewrite !combine_nil. cbn. lra.
+  - destruct u as [|a u], v as [|b v]; cbn in H; try discriminate; [cbn; lra|].
+    unfold vsub. cbn [combine map fst snd row_terms]. fold (vsub u v).
+    rewrite !sum_prod_app, col_pick_sub, IH by lia. ring.
+Qed.
+
+Lemma col_terms_sub u v col : length u = length v ->
+  sum_prod (col_terms 0 (vsub u v) col) == sum_prod (col_terms 0 u col) - sum_prod (col_terms 0 v col).
+Proof.
+  intros H. induction col as [|e r IH]; [cbn; lra|]. rewrite !col_terms_cons. cbn [sum_prod].
+  rewrite IH, vsub_nth by assumption. ring.
+Qed.
+
+Lemma opv_lin notran cols n u v i : length u = length v -> (i < n)%nat ->
+  nth i (opv notran cols n (vsub u v)) 0 == nth i (opv notran cols n u) 0 - nth i (opv notran cols n v) 0.
+Proof.
+  intros H Hi. rewrite !opv_nth by assumption. unfold op_terms. destruct notran.
+  - apply row_terms_sub. assumption.
+  - apply col_terms_sub. assumption.
+Qed.
+
+Lemma dot_abs_le a : forall c W, Forall2 (fun ck wk => Qabs ck <= wk) c W -> Qabs (dot a c) <= dot (map Qabs a) W.
+Proof.
+  induction a as [|x a IH]; intros c W H; [cbn; change (Qabs 0) with 0; lra|].
+  destruct H as [|ck wk c W Hk Hr]; [cbn; change (Qabs 0) with 0; lra|].
+  cbn [dot map]. eapply Qle_trans; [apply Qabs_triangle|]. rewrite Qabs_Qmult.
+  specialize (IH c W Hr). pose proof (Qabs_nonneg x). nra.
+Qed.
+
+Lemma Forall2_nth_intro {X} (P : X -> X -> Prop) d : forall n (c W : list X),
+  length c = n -> length W = n -> (forall k, (k < n)%nat -> P (nth k c d) (nth k W d)) -> Forall2 P c W.
+Proof.
+  induction n as [|n IH]; intros [|a c] [|b W] Hc HW H; cbn in Hc, HW; try discriminate; constructor.
+  - apply (H O). lia.
+  - apply IH; try lia. intros k Hk. apply (H (S k)). lia.
+Qed.
+
+Theorem forward_bound_thm notran (cols : colsQ) n (Brows : list (list Q)) x xs b W :
+  length x = n -> length xs = n -> length W = n ->
+  (* xs is the exact solution of op(A) xs = b *)
+  (forall i, (i < n)%nat -> sum_prod (op_terms notran cols xs i) == nth i b 0) ->
+  (* Brows are the rows of an exact left inverse of op(A) *)
+  (forall v, length v = n -> forall i, (i < n)%nat -> dot (nth i Brows []) (opv notran cols n v) == nth i v 0) ->
+  (* W dominates the exact residual of x *)
+  (forall i, (i < n)%nat -> Qabs (nth i b 0 - sum_prod (op_terms notran cols x i)) <= nth i W 0) ->
+  forall i, (i < n)%nat -> Qabs (nth i x 0 - nth i xs 0) <= dot (map Qabs (nth i Brows [])) W.
+Proof.
+  intros Hx Hxs HW Hsol Hinv Hres i Hi.
+  assert (Hl : length x = length xs) by lia.
+  rewrite <- vsub_nth by assumption.
+  rewrite <- (Hinv (vsub x xs)) by (try rewrite vsub_length; lia).
+  apply dot_abs_le. apply (Forall2_nth_intro _ 0 n).
+  - unfold opv. rewrite map_length, seq_length. reflexivity.
+  - assumption.
+  - intros k Hk. rewrite opv_lin by assumption. rewrite !opv_nth by assumption. rewrite (Hsol k Hk).
+    rewrite <- Qabs_opp. setoid_replace (- (sum_prod (op_terms notran cols x k) - nth k b 0))
+      with (nth k b 0 - sum_prod (op_terms notran cols x k)) by ring.
+    apply Hres. assumption.
+Qed.
+
+Section FerrQ.
+Variable A : Arith Q.
+Hypothesis ok : ArithQ_ok A.
+Local Notation z0 := (a0 A).
+
+(* the weights built by dgsrfs dominate |residual| *)
+Lemma ferr_weights_ge eps safe1 safe2 work rw cnt n :
+  0 <= eps -> 0 <= safe1 -> length work = n -> length rw = n -> length cnt = n ->
+  (forall i, (i < n)%nat -> 0 <= nth i rw z0) -> (forall i, (i < n)%nat -> (0 <= nth i cnt 0%Z)%Z) ->
+  length (ferr_weights A eps safe1 safe2 work rw cnt) = n /\
+  forall i, (i < n)%nat -> Qabs (nth i work z0) <= nth i (ferr_weights A eps safe1 safe2 work rw cnt) z0.
+Proof.
+  intros He Hs Hw Hr Hc Hrp Hcp. unfold ferr_weights. split.
+  - rewrite map_length, !combine_length. lia.
+  - intros i Hi. rewrite (map_nth_in _ _ _ ((z0, z0), 0%Z)) by (rewrite !combine_length; lia).
+    rewrite !combine_nth by (try rewrite combine_length; lia). cbn [fst snd].
+    assert (Hbase : Qabs (nth i work z0) <=
+                    aadd A (afabs A (nth i work z0)) (amul A (amul A (aofZ A (nth i cnt 0%Z + 1)) eps) (nth i rw z0))).
+    { rewrite (ok_add A ok), !(ok_mul A ok), (ok_abs A ok), (ok_ofZ A ok).
+      assert (0 <= inject_Z (nth i cnt 0%Z + 1)).
+      { change 0 with (inject_Z 0). rewrite <- Zle_Qle. specialize (Hcp i Hi). lia. }
+      specialize (Hrp i Hi).
+      assert (0 <= inject_Z (nth i cnt 0%Z + 1) * eps) by nra.
+      assert (0 <= inject_Z (nth i cnt 0%Z + 1) * eps * nth i rw z0) by nra. lra. }
+    destruct (altb A safe2 (nth i rw z0)); [assumption|]. rewrite (ok_add A ok). lra.
+Qed.
+
+(* ---------------------------------------------------------------- the estimator can only under-estimate *)
+Variable n : nat.
+Hypothesis Hn : (1 <= n)%nat.
+Variables fN fT : list Q -> list Q.          (* dgstrs(trans) and dgstrs(transt) as exact maps *)
+Hypothesis lenN : forall v, length v = n -> length (fN v) = n.
+Hypothesis lenT : forall v, length v = n -> length (fT v) = n.
+Variable sc : option (list Q).
+Hypothesis len_sc : match sc with Some c => length c = n | None => True end.
+Variable w : list Q.
+Hypothesis len_w : length w = n.
+
+Definition scale_in (v : list Q) : list Q := match sc with Some c => vmul A v c | None => v end.
+(* KASE = 1 : x := W .* inv(op(A)')( s .* x );   KASE = 2 : x := s .* inv(op(A))( W .* x ) *)
+Definition ferrM (v : list Q) : list Q := vmul A (fT (scale_in v)) w.
+Definition ferrMt (v : list Q) : list Q := scale_in (fN (vmul A v w)).
+
+Lemma vmul_length a b : length a = n -> length b = n -> length (vmul A a b) = n.
+Proof. intros. unfold vmul. rewrite map_length, combine_length. lia. Qed.
+Lemma scale_in_length v : length v = n -> length (scale_in v) = n.
+Proof. intros. unfold scale_in. destruct sc; [apply vmul_length; assumption|assumption]. Qed.
+
+Theorem ferr_estimator_partial_thm (st : lacon_st) (io0 : lacon_io) N fuel res :
+  kase io0 = 0%Z ->
+  lacon_drive A fuel n (ferr_op A (fun (s : unit) v => (s, fN v)) (fun (s : unit) v => (s, fT v)) sc w) tt st io0 O = Some res ->
+  (forall v, length v = n -> sumabs (ferrM v) <= N * sumabs v) ->
+  est (r_io res) <= N /\
+  exists v, length v = n /\ 0 < sumabs v /\ est (r_io res) * sumabs v == sumabs (ferrM v).
+Proof.
+  intros Hk Hrun HN.
+  destruct (drive_sound A ok n Hn ferrM ferrMt) with (X := unit)
+    (op := ferr_op A (fun (s : unit) v => (s, fN v)) (fun (s : unit) v => (s, fT v)) sc w)
+    (fuel := fuel) (s := tt) (st := st) (io := io0) (r := res) as [_ [HW _]].
+  - intros v Hv. unfold ferrM. apply vmul_length; [apply lenT, scale_in_length; assumption|assumption].
+  - intros v Hv. unfold ferrMt. apply scale_in_length, lenN, vmul_length; assumption.
+  - intros s io K. unfold ferr_op, ferrM, scale_in. rewrite K. cbn [Z.eqb Pos.eqb]. destruct sc; reflexivity.
+  - intros s io K. unfold ferr_op, ferrMt, scale_in. rewrite K. cbn [Z.eqb Pos.eqb]. destruct sc; reflexivity.
+  - assumption.
+  - assumption.
+  - destruct HW as (v & Hv & Hp & He). split; [|exists v; split; [assumption|split; assumption]].
+    specialize (HN v Hv). rewrite <- He in HN. nra.
+Qed.
+End FerrQ.
+
+(* ================================================================== Part 4 (R5.v) *)
+
+Section FerrTop.
+Variable A : Arith Q.
+Hypothesis ok : ArithQ_ok A.
+Local Notation z0 := (a0 A).
+
+Lemma row_counts_spec notran n (cols : colsQ) : length cols = n ->
+  length (row_counts notran n cols) = n /\ forall i, (i < n)%nat -> (0 <= nth i (row_counts notran n cols) 0%Z)%Z.
+Proof.
+  intros Hc. unfold row_counts. destruct notran.
+  - assert (G : forall (cs : colsQ) cnt, length cnt = n -> Forall (fun z => (0 <= z)%Z) cnt ->
+               let r := fold_left (fun cnt col => fold_left (fun cnt (e : nat * Q) => upd cnt (fst e) (nth (fst e) cnt 0 + 1)%Z) col cnt) cs cnt in
+               length r = n /\ Forall (fun z => (0 <= z)%Z) r).
+    { assert (G1 : forall (col : list (nat * Q)) cnt, length cnt = n -> Forall (fun z => (0 <= z)%Z) cnt ->
+                   let r := fold_left (fun cnt (e : nat * Q) => upd cnt (fst e) (nth (fst e) cnt 0 + 1)%Z) col cnt in
+                   length r = n /\ Forall (fun z => (0 <= z)%Z) r).
+      { induction col as [|e r IH]; intros cnt Hl Hf; cbn; [split; assumption|].
+        apply IH; [rewrite upd_length; assumption|].
+        assert (Hn : (0 <= nth (fst e) cnt 0)%Z).
+        { destruct (Nat.lt_ge_cases (fst e) (length cnt)) as [H|H].
+          - rewrite Forall_forall in Hf. apply Hf, nth_In. assumption.
+          - rewrite nth_overflow by assumption. lia. }
+        clear - Hf Hn. revert Hf Hn. generalize (nth (fst e) cnt 0%Z). generalize (fst e). 
+        induction cnt as [|c cnt IHc]; intros k z Hf Hz; destruct k; cbn; try constructor; inversion Hf; subst; try assumption; try lia.
+        apply IHc; assumption. }
+      induction cs as [|c r IH]; intros cnt Hl Hf; cbn; [split; assumption|].
+      destruct (G1 c cnt Hl Hf) as [Hl1 Hf1]. apply IH; assumption. }
+    destruct (G cols (repeat 0%Z n)) as [Hl Hf]; [apply repeat_length|apply Forall_forall; intros z Hz; apply repeat_spec in Hz; lia|].
+    split; [assumption|]. intros i Hi. rewrite Forall_forall in Hf. apply Hf, nth_In. lia.
+  - split; [rewrite map_length; assumption|]. intros i Hi.
+    rewrite (map_nth_in _ _ _ []) by lia. lia.
+Qed.
+
+(* with the exact infinity norm in place of the estimator the bound dominates the error, row by row:
+   |x - x*|_i <= ( |inv(op A)| W )_i  for the weights W the code builds from the computed residual *)
+Theorem ferr_exact_norm_dominates_thm notran (cols : colsQ) n (Brows : list (list Q)) x xs b eps safe1 safe2 :
+  length b = n -> length cols = n -> length x = n -> length xs = n -> 0 <= eps -> 0 <= safe1 ->
+  (forall i, (i < n)%nat -> sum_prod (op_terms notran cols xs i) == nth i b 0) ->
+  (forall v, length v = n -> forall i, (i < n)%nat -> dot (nth i Brows []) (opv notran cols n v) == nth i v 0) ->
+  let W := ferr_weights A eps safe1 safe2 (residual A notran cols x b) (denom A notran cols x b) (row_counts notran n cols) in
+  forall i, (i < n)%nat -> Qabs (nth i x 0 - nth i xs 0) <= dot (map Qabs (nth i Brows [])) W.
+Proof.
+  intros Hb Hc Hx Hxs He Hs Hsol Hinv W.
+  destruct (residual_spec A ok notran cols x b n Hb Hc Hx) as [Hlr Hr].
+  destruct (denom_spec A ok notran cols x b n Hb Hc Hx) as [Hld Hd].
+  destruct (row_counts_spec notran n cols Hc) as [Hlc Hcp].
+  destruct (ferr_weights_ge A ok eps safe1 safe2 _ _ _ n He Hs Hlr Hld Hlc) as [HlW HW]; [|assumption|].
+  { intros i Hi. rewrite (Hd i Hi). pose proof (Qabs_nonneg (nth i b z0)). pose proof (sum_absprod_nonneg (op_terms notran cols x i)). lra. }
+  apply (forward_bound_thm notran cols n Brows x xs b W); try assumption.
+  intros i Hi. fold W in HW. specialize (HW i Hi). rewrite (Hr i Hi) in HW.
+  rewrite (nth_indep b 0 z0) by lia. rewrite (nth_indep W 0 z0) by (unfold W; lia). exact HW.
+Qed.
+End FerrTop.
+
+(* ================================================================== statements used by Properties_C13.v *)
+Theorem refine_residual_denominators_thm :
+  forall (A : Arith Q), ArithQ_ok A ->
+  forall (notran : bool) (cols : list (list (nat * Q))) (x b : list Q) (n : nat),
+    length b = n -> length cols = n -> length x = n ->
+    (forall i, (i < n)%nat ->
+       nth i (residual A notran cols x b) (a0 A) == nth i b (a0 A) - sum_prod (op_terms notran cols x i)) /\
+    (forall i, (i < n)%nat ->
+       nth i (denom A notran cols x b) (a0 A) == Qabs (nth i b (a0 A)) + sum_absprod (op_terms notran cols x i)).
+Proof.
+  intros A ok notran cols x b n Hb Hc Hx. split.
+  - exact (proj2 (residual_spec A ok notran cols x b n Hb Hc Hx)).
+  - exact (proj2 (denom_spec A ok notran cols x b n Hb Hc Hx)).
+Qed.
+
+Theorem berr_formula_thm :
+  forall (A : Arith Q), ArithQ_ok A -> forall (safe1 safe2 : Q), 0 <= safe1 -> 0 <= safe2 ->
+  forall (work rw : list Q) (n : nat), length work = n -> length rw = n ->
+    let s := berr_of A safe1 safe2 work rw in
+    0 <= s /\
+    (forall i, (i < n)%nat -> ~ nth i rw (a0 A) == 0 ->
+               term_spec safe1 safe2 (nth i work (a0 A)) (nth i rw (a0 A)) <= s) /\
+    (s == 0 \/ exists i, (i < n)%nat /\ ~ nth i rw (a0 A) == 0 /\
+                         s == term_spec safe1 safe2 (nth i work (a0 A)) (nth i rw (a0 A))).
+Proof. intros A ok safe1 safe2 _ H2. exact (berr_of_spec A ok safe1 safe2 H2). Qed.
+
+(* ================================================================== non-vacuity *)
+(* A = [[2,0],[1,3]] stored by columns, x = (1,1), b = (2,5): residual (0,1), denominators (4, 9), berr = 1/9 *)
+Definition exA : colsQ := [[(0%nat, 2); (1%nat, 1)]; [(1%nat, 3)]].
+Example ex_berr : berr_of QArith_red 0 0 (residual QArith_red true exA [1; 1] [2; 5]) (denom QArith_red true exA [1; 1] [2; 5]) == 1 # 9.
+Proof. vm_compute. reflexivity. Qed.
+Example ex_berr_T : berr_of QArith_red 0 0 (residual QArith_red false exA [1; 1] [2; 5]) (denom QArith_red false exA [1; 1] [2; 5]) == 1 # 4.
+Proof. vm_compute. reflexivity. Qed.
+(* one exact correction step solves the system: the loop stops after 1 step with berr = 0 *)
+Definition ex_solve (s : unit) (r : list Q) : unit * list Q :=
+  (tt, match r with [r0; r1] => [Qred (r0 / 2); Qred ((r1 - r0 / 2) / 3)] | _ => r end).
+Example ex_refine : exists ro, refine_loop QArith_red refine_fuel true exA [2; 5] 0 0 0 ex_solve tt [1; 1] 0%Z 3 [] = Some ro /\
+                               ro_count ro = 1%Z /\ ro_berr ro == 0 /\ Forall2 Qeq (ro_x ro) [1; 4 # 3].
+Proof. eexists. split; [vm_compute; reflexivity|]. split; [reflexivity|]. split; [reflexivity|]. repeat constructor; reflexivity. Qed.
+(* an exact left inverse of that A (rows of inv A) satisfies the hypothesis of ferr_exact_norm_dominates *)
+Definition exB : list (list Q) := [[1 # 2; 0]; [- (1 # 6); 1 # 3]].
+Example ex_left_inverse : forall v, length v = 2%nat -> forall i, (i < 2)%nat -> dot (nth i exB []) (opv true exA 2 v) == nth i v 0.
+Proof.
+  intros [|a [|b [|? ?]]] Hv i Hi; try discriminate.
+  destruct i as [|[|i]]; [| |lia]; unfold opv, exB, exA; cbn [seq map op_terms combine row_terms col_pick fst snd Nat.eqb app sum_prod nth dot]; ring.
+Qed.
+Example ex_exact_solution : forall i, (i < 2)%nat -> sum_prod (op_terms true exA [1; 4 # 3] i) == nth i [2; 5] 0.
+Proof. intros [|[|i]] Hi; [| |lia]; vm_compute; reflexivity. Qed.
